@@ -17,6 +17,7 @@ import GoImap.Drive.C04
 import GoImap.Drive.C11
 import GoImap.Drive.C08
 import GoImap.Drive.C06
+import GoImap.Drive.C18
 open GoImap
 
 /-- one case per input line, tab-separated; the first field names the property -/
@@ -41,6 +42,7 @@ def dispatch (line : String) : String :=
   | "C11" :: rest => DriveC11.handle rest
   | "C08" :: rest => DriveC08.handle rest
   | "C06" :: rest => DriveC06.handle rest
+  | "C18" :: rest => DriveC18.handle rest
   | _ => "?\t0\tfail:unknown-property\t-"
 
 partial def loop (hin hout : IO.FS.Stream) : IO Unit := do
